@@ -166,6 +166,9 @@ impl Check for C01Stream {
         if depth > 64 {
             return CaseResult::Discard("nesting > 64".into());
         }
+        if has_surrogate_escape(input) {
+            return CaseResult::Discard("\\uD800-\\uDFFF escape (outside the property's domain)".into());
+        }
         let out = run(&[], input);
         let (noncanon, upper, escapes) = number_tokens_noncanonical(input);
         let info = Info::new(exp.len() >= 2 && (noncanon || escapes || case.touching > 0 || depth >= 3))
